@@ -132,7 +132,15 @@ MatchSym(len) == len + NSYM - 1 - THRESHOLD
 
 -----------------------------------------------------------------------------
 (* DECODER: a pure function of (bits, declared size), evaluated step by step.  Bits beyond the end read as zero.      *)
-BitAt(bits, k) == IF k <= Len(bits) THEN bits[k] ELSE 0      \* k is 1-based
+(* A bit source is either a sequence of bits or a sequence of bytes (MSB first), so that long streams need not be      *)
+(* unpacked: [packed |-> FALSE, b |-> bits] or [packed |-> TRUE, b |-> bytes].  k is 1-based.                          *)
+FromBits(bits)   == [packed |-> FALSE, b |-> bits]
+FromBytes(bytes) == [packed |-> TRUE, b |-> bytes]
+BitAt(src, k) ==
+    IF src.packed
+      THEN LET i == (k - 1) \div 8 IN
+           IF i + 1 > Len(src.b) THEN 0 ELSE (src.b[i + 1] \div (2 ^ (7 - ((k - 1) % 8)))) % 2
+      ELSE IF k <= Len(src.b) THEN src.b[k] ELSE 0
 
 RECURSIVE WalkDown(_, _, _, _)
 (* from node c follow input bits to a leaf: returns <<symbol, next bit index>> *)
